@@ -9,7 +9,7 @@ import fiddle as fdl
 from harness import argstore, common, family, targets
 
 FIELDS = ['view', 'oa', 'build']
-SPECIES = ['function', 'class', 'classmethod', 'callable_instance', 'partial']
+SPECIES = ['function', 'class', 'classmethod', 'callable_instance', 'partial', 'unhashable_instance']
 
 
 def corpus():
@@ -94,6 +94,8 @@ def expected_binding(sig, state):
   pos = [p for p in sig if p[1] in ('po', 'pk')]
   P = len(pos)
   slots = []
+  if view == 'err' or len(view) < P:
+    return {'inconsistent_reports': ['cfg[:] does not cover the non-variadic parameters', view, P]}
   for p in sig:
     if p[1] not in ('po', 'pk', 'ko'):
       continue
